@@ -254,6 +254,10 @@ class TvResult:
         self.accepted = bool(re.search(r'<<\s*"ACCEPTED"', res.out)) and not re.search(r'<<\s*"REJECTED"', res.out)
         self.chkfails = res.printed("CHKFAIL")
         self.drifts = res.printed("DRIFT")
+        # <<"MECHSTATS", predictions made, searches, searches drifted, searches left at an implementation-defined point>>
+        self.mech = [0, 0, 0, 0]
+        for m in re.finditer(r'<<\s*"MECHSTATS",\s*(\d+),\s*(\d+),\s*(\d+),\s*(\d+)', res.out):
+            self.mech = [a + int(b) for a, b in zip(self.mech, m.groups())]
         self.rejected_at = None
         m = re.search(r'<<\s*"REJECTED",\s*(\d+)', res.out)
         if m:
@@ -294,6 +298,7 @@ class TvMulti:
         self.accepted = all(p.accepted for p in parts)
         self.chkfails = [c for p in parts for c in p.chkfails]
         self.drifts = [d for p in parts for d in p.drifts]
+        self.mech = [sum(p.mech[i] for p in parts) for i in range(4)]
         bad = [p for p in parts if not p.accepted]
         self.rejected_at = bad[0].rejected_at if bad else None
         self.rejected_file = bad[0].trace_file if bad else None
